@@ -426,8 +426,44 @@ TGRID_THOROUGH = [F(2, 3), F(5, 3), F(-7, 3), F(10 ** 12) + F(1, 4),
                   F(1, 1000), F(-1, 1000), F(15, 2), F(-15, 2)]
 
 
+def run_mode_sequence(p):
+    """All default rounding modes one after the other in ONE process (in two
+    orders): results memoised under an earlier mode must not leak."""
+    name, order = p[0], p[1]
+    st = Stats()
+    modes = list(O.MODES)
+    if order == 'reversed':
+        modes.reverse()
+    if name == 'datavolume':
+        w = world_dv()
+    else:
+        w, err = build_world(USER)
+        assert err is None, err
+    for mode in modes:
+        O.set_mode(mode)
+        ck = Ck(w, st, mode, name + ':mode-sequence-' + order)
+        if name == 'datavolume':
+            dt = w.tm['DataThroughput'].units
+            du = w.tm['Duration'].units
+            explore_products(ck, [('*', a, b) for a in dt[3:5] for b in du[:3]]
+                             + [('*', b, a) for a in dt[3:5]
+                                for b in du[:3]], 'DataVolume')
+            explore_near_ties(ck, 'DataVolume', ['kB'])
+        else:
+            explore_powers(ck, ['p0', 'p7', 'pt', 'pi0', 'pi7'],
+                           [2, -1, -2])
+            explore_products(ck, [('*', 'p7', 'pt'), ('*', 'pt', 'pt'),
+                                  ('*', 'p0', 'l1'), ('*', 'p7/l1', 'l0'),
+                                  ('/', 'pt²', 'p7')], None)
+    for sig in list(st.viol):
+        st.viol[sig + ':mode-sequence'] = st.viol.pop(sig)
+    return st
+
+
 def run_world(p):
     global TGRID
+    if p[1] in ('forward', 'reversed'):
+        return run_mode_sequence(p)
     name, mode = p[0], p[1]
     thorough = len(p) > 2 and p[2] == 'thorough'
     if thorough:
@@ -491,6 +527,11 @@ def replay(case):
     """A C05 case names the world, the mode and the operation; re-running the
     whole (world, mode) partition and filtering is the simplest faithful
     replay (a partition takes a few seconds)."""
+    wname = case['world']
+    if ':mode-sequence-' in wname:
+        wn, _, order = wname.partition(':mode-sequence-')
+        st = run_world((wn, order, case.get('tier', 'quick')))
+        return [(sig, ent[1]) for sig, ent in st.viol.items()]
     st = run_world((case['world'], case['mode'], case.get('tier', 'quick')))
     out = []
     for sig, (n, msg, cases) in st.viol.items():
@@ -507,6 +548,8 @@ def replay(case):
 def run(tier, seed):
     worlds = ['datavolume', 'money', 'user']
     parts = [(wn, m, tier) for wn in worlds for m in O.MODES]
+    parts += [(wn, order, tier) for wn in ('datavolume', 'user')
+              for order in ('forward', 'reversed')]
     total = pmap(run_world, parts, fresh=True)
     if tier == 'thorough':
         for sig, ent in total.viol.items():
